@@ -113,6 +113,8 @@ def execute(machine_cls, seed, knobs, ops, max_ops=None, realfs_root=None):
     SCHED.install()
     SCHED.reseed(seeds.H(seed, 'hash'))
     leaked = GLOBALS.reset()
+    from . import fresh
+    fresh_before = fresh.pristine() if realfs_root is None else None
     ctx = Ctx(seed, knobs, realfs_root)
     if leaked:
         ctx.stats['process_globals_restored'] += leaked
@@ -129,6 +131,15 @@ def execute(machine_cls, seed, knobs, ops, max_ops=None, realfs_root=None):
             m.after_op(op)
         i = len(ops)
         m.finish()
+        if fresh_before is not None and seed % 10 < 3:
+            # O0: objects built from scratch after this history are what they are before any
+            SEAMS.fs = None
+            fresh_after = fresh.digest()
+            ctx.probes['fresh_objects_compared'] += 1
+            if fresh_after != fresh_before:
+                raise Violation('O0.fresh', 'objects built from scratch after this history differ '
+                                'from objects built before it: %s'
+                                % fresh.difference(fresh_before, fresh_after))
     except Violation as v:
         rec.update(outcome='violation', check=v.check, msg=v.msg, key=v.key, op_index=i)
     except HarnessError as e:
